@@ -22,7 +22,9 @@ import time
 V = os.path.dirname(os.path.dirname(os.path.abspath(__file__)))
 SEEDED = os.path.join(V, "seeded")
 REPO = "/repo"
-ENV = dict(os.environ, GOFLAGS="-mod=mod", GOPROXY="off", GOSUMDB="off", GOTOOLCHAIN="local")
+# checks run here work on a patched /repo: their evidence goes to a scratch directory, never to /verif/evidence
+ENV = dict(os.environ, GOFLAGS="-mod=mod", GOPROXY="off", GOSUMDB="off", GOTOOLCHAIN="local",
+           VERIF_EVIDENCE_DIR=os.path.join(V, "out", "evidence-of-patched-trees"))
 
 
 def sh(cmd, cwd=None, timeout=1800):
